@@ -242,7 +242,17 @@ Proof.
   specialize (IH ps H2). destruct (conv_fields ps l); congruence.
 Qed.
 
-Definition wf_item (it : item) : Prop := match it with IPrim _ p => wf_prim p | _ => True end.
+Definition wf_item (it : item) : Prop :=
+  match it with IPrim _ p => wf_prim p | IStruct _ ps => Forall wf_prim ps | IVoid => True end.
+
+Lemma conv_struct_items_not_bad : forall id ps l, Forall wf_prim ps -> conv_struct_items id ps l <> inl CBad.
+Proof.
+  intros id ps l W. induction l as [| x l IH]; cbn [conv_struct_items]; [discriminate |].
+  destruct x; try discriminate.
+  - pose proof (conv_fields_not_bad ps l0 W). destruct (conv_fields ps l0); [congruence |].
+    destruct (conv_struct_items id ps l); congruence.
+  - destruct (id =? id0); [| discriminate]. destruct (conv_struct_items id ps l); congruence.
+Qed.
 Definition wf_ctype_deep (t : ctype) : Prop :=
   match t with Prim p => wf_prim p | Ptr it => wf_item it | Struct _ ps => Forall wf_prim ps | FnPtr => True end.
 
@@ -258,8 +268,9 @@ Proof.
   - unfold conv_pointer. destruct x; try discriminate.
     + destruct (_ || _); [| discriminate]. split_matches.
     + split_matches.
-    + destruct it as [| nid p |]; try discriminate.
-      pose proof (conv_items_not_bad p l W). destruct (conv_items p l); [congruence | discriminate].
+    + destruct it as [| nid p | sid ps]; try discriminate.
+      * pose proof (conv_items_not_bad p l W). destruct (conv_items p l); [congruence | discriminate].
+      * pose proof (conv_struct_items_not_bad sid ps l W). destruct (conv_struct_items sid ps l); [congruence | discriminate].
     + split_matches.
     + split_matches.
     + split_matches.
